@@ -85,11 +85,8 @@ section
 variable {α : Type} [Num α]
 
 /-- double factorial table `DFAC[i]`: DFAC[0] = DFAC[1] = 1, DFAC[i] = i · DFAC[i-2] (as `initFactorials` fills it) -/
-def dfacTable (n : Nat) : Array α := Id.run do
-  let mut a : Array α := #[1, 1]
-  for i in [2:n] do
-    a := a.push ((i : α) * a[i - 2]!)
-  return a
+def dfacTable (n : Nat) : Array α :=
+  (List.range (n - 2)).foldl (fun (a : Array α) k => a.push (((k + 2 : Nat) : α) * a[k]!)) #[1, 1]
 
 structure Table (α : Type) where
   lMax : Nat
@@ -98,47 +95,47 @@ structure Table (α : Type) where
   K : Array (Array α)              -- K[i][l], i ≤ N, l ≤ lMax + TAYLOR_CUT
   dK : Array (Array (Array α))     -- dK[i][n][l], n ≤ TAYLOR_CUT
 
-/-- `tabulate`: one grid point.  Returns K[i][0 .. lmax]. -/
-def tabulateRow (dfac : Array α) (N order lmax : Nat) (accuracy : α) (i : Nat) : Array α := Id.run do
+/-- the series loop of `tabulate`: `for (j = 1; j <= order; j++) { if (ratio < accuracy) break; F[j] = F[j-1]*z2/j;
+ratio = F[j]/DFAC[2j+1]; K0 += ratio; }` with `fuel` iterations left.  Returns (F, K0, j). -/
+def seriesLoop (dfac : Array α) (z2 accuracy : α) : Nat → Nat → Array α → α → α → Array α × α × Nat
+  | 0, j, F, _, k0 => (F, k0, j)
+  | fuel + 1, j, F, ratio, k0 =>
+    if ratio < accuracy then (F, k0, j)
+    else
+      let Fj : α := F[j - 1]! * z2 / (j : α)
+      let ratio' : α := Fj / dfac[2 * j + 1]!
+      seriesLoop dfac z2 accuracy fuel (j + 1) (F.push Fj) ratio' (k0 + ratio')
+
+/-- the inner sum of `tabulate` for order l over the j terms kept: `Σ_{m<j} F[m] / DFAC[2l+2m+1]`, from 0, in order -/
+def seriesSum (dfac F : Array α) (j l : Nat) : α :=
+  (List.range j).foldl (fun r m => r + F[m]! / dfac[2 * l + 2 * m + 1]!) (0 : α)
+
+/-- `tabulate`: one grid point.  Returns K[i][0 .. lmax]: K0 from the running sum of the series loop, then
+`zl * Σ_m F[m]/DFAC[2l+2m+1]` with `zl = z, z*z, (z*z)*z, …`. -/
+def tabulateRow (dfac : Array α) (N order lmax : Nat) (accuracy : α) (i : Nat) : Array α :=
   let z : α := (i : α) / ((N : α) / (16 : Nat))
   let z2 : α := z * z / (2 : Nat)
-  let mut F : Array α := #[Num.exp (-z)]
-  let mut ratio : α := F[0]! / dfac[0]!
-  let mut k0 : α := ratio
-  let mut j := 1
-  -- `for (j = 1; j <= order; j++) { if (ratio < accuracy) break; ... }`
-  let mut go := true
-  while go && j ≤ order do
-    if ratio < accuracy then
-      go := false
-    else
-      F := F.push (F[j - 1]! * z2 / (j : α))
-      ratio := F[j]! / dfac[2 * j + 1]!
-      k0 := k0 + ratio
-      j := j + 1
-  let mut row : Array α := #[k0]
-  let mut zl : α := z
-  for l in [1:lmax + 1] do
-    let mut r : α := 0
-    for m in [0:j] do
-      r := r + F[m]! / dfac[2 * l + 2 * m + 1]!
-    row := row.push (zl * r)
-    zl := zl * z
-  return row
+  let F0 : α := Num.exp (-z)
+  let ratio0 : α := F0 / dfac[0]!
+  let (F, k0, j) := seriesLoop dfac z2 accuracy order 1 #[F0] ratio0 ratio0
+  ((List.range lmax).foldl (fun (acc : Array α × α) i =>
+      let l := i + 1
+      (acc.1.push (acc.2 * seriesSum dfac F j l), acc.2 * z)) (#[k0], z)).1
+
+/-- one row of the derivative tables from the previous one: entry 0 is `prev[1] − prev[0]`, entries
+1 … top are `recStep`, the rest of the `width` entries stay 0 -/
+def derivNext (width top : Nat) (prev : Array α) : Array α :=
+  (Array.range width).map fun l =>
+    if l = 0 then prev[1]! - prev[0]!
+    else if l ≤ top then recStep l prev[l - 1]! prev[l + 1]! prev[l]!
+    else 0
 
 /-- derivative tables of one grid point: `dK[ix][n][l]` from `K[ix][l]` by
-K_l^(n+1) = C_l K_{l-1}^(n) + (C_l + 1/(2l+1)) K_{l+1}^(n) − K_l^(n),  C_l = l/(2l+1) -/
-def derivRows (lMax tc : Nat) (krow : Array α) : Array (Array α) := Id.run do
-  let width := lMax + tc + 1
-  let mut d : Array (Array α) := #[krow]
-  for n in [1:tc + 1] do
-    let prev := d[n - 1]!
-    let mut row : Array α := Array.replicate width 0
-    row := row.set! 0 (prev[1]! - prev[0]!)
-    for l in [1:lMax + tc - n + 1] do
-      row := row.set! l (recStep l prev[l - 1]! prev[l + 1]! prev[l]!)
-    d := d.push row
-  return d
+K_l^(n+1) = C_l K_{l-1}^(n) + (C_l + 1/(2l+1)) K_{l+1}^(n) − K_l^(n),  C_l = l/(2l+1);
+row n ≥ 1 has its entries 0 … lMax+tc−n filled -/
+def derivRows (lMax tc : Nat) (krow : Array α) : Array (Array α) :=
+  (List.range tc).foldl (fun (d : Array (Array α)) i =>
+    d.push (derivNext (lMax + tc + 1) (lMax + tc - (i + 1)) d[i]!)) #[krow]
 
 def build (lMax N order : Nat) (accuracy : α) : Table α :=
   let tc := Gen.TAYLOR_CUT
